@@ -16,6 +16,7 @@ mod c09;
 mod c11;
 mod c12;
 mod c13;
+mod c14;
 mod c15;
 mod c18;
 mod c19;
@@ -94,6 +95,7 @@ fn main() {
         "C11" => c11::run(seed, replay),
         "C12" => c12::run(seed, replay),
         "C13" => c13::run(seed, replay),
+        "C14" => c14::run(seed, replay),
         "C15" => c15::run(seed, replay),
         "C18" => c18::run(seed, replay),
         "C19" => c19::run(seed, replay),
